@@ -145,6 +145,16 @@ func opExpr(s Step) (e *Expr, needA, needB string, derives bool) {
 		return MCall(a, "replace", Lam([]string{"m"}, b)), "map", "map", true
 	case "mapPlus":
 		return Bin("+", a, b), "map", "map", true
+	// sub-lists handed out by a built-in are lists of their own: appending to one of them
+	// changes neither the parent nor a sibling
+	case "movingWindowAppend":
+		return MCall(MCall(a, "movingWindow", lam1(Bin("*", Var("e"), Float(0.75)))), "map", Lam([]string{"w"}, MCall(Var("w"), "append", v))), "ilist", "", true
+	case "movingWindowRemoveAppend":
+		return MCall(MCall(a, "movingWindowRemove", Lam([]string{"w"}, Bin(">", MCall(Var("w"), "size"), Int(2)))), "map", Lam([]string{"w"}, MCall(Var("w"), "append", v))), "ilist", "", true
+	case "combineNAppend":
+		return MCall(a, "combineN", Int(2+s.N%2), Lam([]string{"w"}, MCall(Var("w"), "append", v))), "list", "", true
+	case "groupValuesAppend":
+		return MCall(MCall(a, "groupByInt", lam1(Bin("%", Var("e"), Int(2)))), "map", Lam([]string{"g"}, MCall(Member(Var("g"), "values"), "append", v))), "ilist", "", true
 	case "mapPlusFresh":
 		// merge with a one-entry literal whose key is (almost always) new
 		return Bin("+", a, Map([]string{fmt.Sprintf("q%d_%d", s.N, s.V+3)}, []*Expr{v})), "map", "", true
@@ -161,7 +171,8 @@ func opExpr(s Step) (e *Expr, needA, needB string, derives bool) {
 var listOps = []string{"append", "append", "append", "appendList", "set", "reverse", "order", "plus", "top", "skip", "map", "accept", "eval", "combineN",
 	"combineNeval", "iirAppend", "number", "first", "size", "sum", "put", "replace", "mapPlus", "mapEval", "mapList", "mapMap",
 	"containsAll", "containsAll", "containsItem", "equalTo", "string", "last", "minMax", "max", "mean", "reduce", "mapReduce", "indexWhere", "present", "visit",
-	"orderRev", "orderLess", "combine", "combine3", "compact", "cross", "merge", "iir", "uniqueInt", "groupByInt", "replaceList", "mapCombine", "mapAccept", "mapGet", "mapPlusFresh", "mapPlusFresh", "mapPlusFresh"}
+	"orderRev", "orderLess", "combine", "combine3", "compact", "cross", "merge", "iir", "uniqueInt", "groupByInt", "replaceList", "mapCombine", "mapAccept", "mapGet", "mapPlusFresh", "mapPlusFresh", "mapPlusFresh",
+	"movingWindowAppend", "movingWindowAppend", "movingWindowRemoveAppend", "combineNAppend", "groupValuesAppend"}
 
 func kindOf(v ref.Value) string {
 	switch x := v.(type) {
